@@ -41,6 +41,9 @@ def handleRun (j : Json) : Except String String := do
     | _ => none
   let avail ← mapM' (fun x => x.getStr?) (← arrF j "avail")
   let firedOk ← boolF j "fired_ok"
+  let must := match optF j "must" with
+    | some v => (v.getArr?.toOption.map (fun (a : Array Json) => a.toList.filterMap (fun (x : Json) => x.getStr?.toOption))).getD []
+    | none => []
   let fired ← mapM' parsePair (← arrF j "fired")
   let impl ← field j "impl"
   let exit ← intF impl "exit"
@@ -66,6 +69,14 @@ def handleRun (j : Json) : Except String String := do
     let modelS := showLabels (expectedLabels sel fired)
     let specS := showLabels (expectedLabels specSel fired)
     if implS != specS then return s!"spec class={mode} expected={specS} impl={implS} model={modelS}"
+    -- independent ground truth (not derived from a run of the analyzer): a selected check whose trigger
+    -- sequence is in the program must have reported
+    for name in must do
+      match specSel.find? (fun m => m.name == name) with
+      | some m =>
+        if !(labels.any (fun w => mayEmit m w)) then
+          return s!"spec class={mode}-selected-check-silent:{name} expected=warning-of-{name} impl={implS} model={modelS}"
+      | none => pure ()
     if implS != modelS then return s!"diff class={mode} model={modelS} impl={implS}"
     let tag := if labels.isEmpty then "nowarnings" else "warnings"
     return s!"ok {mode} {tag} constrained"
